@@ -131,6 +131,23 @@ func (in *Interp) cmpBytes(a, b []*Term) (lt, eq *Term) {
 	if len(b) < n {
 		n = len(b)
 	}
+	// fast path: a concrete (or syntactically identical) common prefix decides or shortens the comparison
+	start := 0
+	for start < n {
+		x, y := a[start], b[start]
+		if x == y {
+			start++
+			continue
+		}
+		if x.IsConst() && y.IsConst() {
+			return in.tt.Bool(x.Val < y.Val), in.tt.False
+		}
+		break
+	}
+	if start > 0 {
+		a, b = a[start:], b[start:]
+		n -= start
+	}
 	// process from the end: lt_i = a[i]<b[i] || (a[i]==b[i] && lt_{i+1})
 	var ltT, eqT *Term
 	if len(a) < len(b) {
@@ -664,7 +681,11 @@ func (in *Interp) appendOp(t types.Type, a Slice, bv Value) Value {
 	}
 	if a.Len+len(add) <= a.Cap {
 		for i, v := range add {
-			*a.B.at(a.Off + a.Len + i) = v
+			cell := a.B.at(a.Off + a.Len + i)
+			if in.recording != nil {
+				in.recordWrite(cell)
+			}
+			*cell = v
 		}
 		return Slice{B: a.B, Off: a.Off, Len: a.Len + len(add), Cap: a.Cap}
 	}
@@ -707,7 +728,11 @@ func (in *Interp) copyOp(dst Slice, srcv Value) int {
 		n = dst.Len
 	}
 	for i := 0; i < n; i++ {
-		*dst.At(i) = src[i]
+		cell := dst.At(i)
+		if in.recording != nil {
+			in.recordWrite(cell)
+		}
+		*cell = src[i]
 	}
 	return n
 }
